@@ -7,6 +7,7 @@ package main
 import (
 	"fmt"
 	"math/rand"
+	"os"
 	"strings"
 	"sync/atomic"
 	"time"
@@ -60,7 +61,10 @@ func runBlocked(in input) lib.Case {
 		// the peer stops reading (it still takes the message its Receive may be in the middle of)
 		atomic.StoreInt32(&pe.stall, 1)
 		data := make([]byte, b.Size*1024)
-		const totalLimit = 192 << 20
+		totalLimit := 192 << 20
+		if strings.Contains(os.Getenv("VERIF_C10_FORCE"), "unblocked") {
+			totalLimit = 2 * len(data) // self-test of the alternative schedule: stop sending before anything blocks
+		}
 	sending:
 		for total := 0; total < totalLimit; total += len(data) {
 			res := &opResult{done: make(chan struct{})}
